@@ -62,7 +62,7 @@ theorem T_C06_blocks (decl : Decl) :
     ∀ (k : Nat) (o : OpDecl), (declOps decl)[k]? = some o →
       ∃ vs, (declVA decl).2[k]? = some vs ∧
         (assembleDecl decl).blocks[k]? =
-          some ⟨vs.map (·.index), o.zone, o.counts, o.gkind, o.grading, "// " ++ toString k⟩ := by
+          some ⟨vs.map (·.index), o.zone, o.counts, (gradingOf o).1, (gradingOf o).2, "// " ++ toString k⟩ := by
   obtain ⟨_, _, k3, _, _⟩ := assemble_winv closeCorner (C05.slavePatches (declMerged decl))
     ((declOps decl).map OpDecl.toC05) (vl := {}) winv_empty
   have hlen : (declVA decl).2.length = (declOps decl).length := by
@@ -80,6 +80,26 @@ theorem T_C06_blocks (decl : Decl) :
       exact ⟨ho, by rw [List.getElem?_map, List.getElem?_eq_getElem hk]; rfl⟩
     rw [hz]
     rfl
+
+/-- **T_C06_axis_pairs.** (`decide`, regenerated table) `constants.AXIS_PAIRS` lists the wires in the
+    order in which blockMesh reads the twelve numbers of `edgeGrading`:
+    x-edges 0-1, 3-2, 7-6, 4-5; y-edges 0-3, 1-2, 5-6, 4-7; z-edges 0-4, 1-5, 2-6, 3-7. -/
+theorem T_C06_axis_pairs :
+    CBV.Gen.axisPairs = [[(0, 1), (3, 2), (7, 6), (4, 5)], [(0, 3), (1, 2), (5, 6), (4, 7)],
+      [(0, 4), (1, 5), (2, 6), (3, 7)]] := by decide
+
+/-- **T_C06_grading.** The grading of a hex entry carries the gradings of the operation's wires in
+    blockMesh's order: `edgeGrading` lists the (opaque) gradings of the wires 0-1, 3-2, 7-6, 4-5, 0-3,
+    1-2, 5-6, 4-7, 0-4, 1-5, 2-6, 3-7; `simpleGrading` those of 0-1, 0-3, 0-4. -/
+theorem T_C06_grading (o : OpDecl) :
+    gradingOf o =
+      if o.simple then ("simpleGrading", wireGradingOf o 0 1 ++ wireGradingOf o 0 3 ++ wireGradingOf o 0 4)
+      else ("edgeGrading",
+        wireGradingOf o 0 1 ++ wireGradingOf o 3 2 ++ wireGradingOf o 7 6 ++ wireGradingOf o 4 5 ++
+        wireGradingOf o 0 3 ++ wireGradingOf o 1 2 ++ wireGradingOf o 5 6 ++ wireGradingOf o 4 7 ++
+        wireGradingOf o 0 4 ++ wireGradingOf o 1 5 ++ wireGradingOf o 2 6 ++ wireGradingOf o 3 7) := by
+  unfold gradingOf
+  split <;> simp [CBV.Gen.axisPairs]
 
 /-- **T_C06_vertices.** The vertices section lists the vertices of the C05 model in order; entry
     `i` carries the comment `// i`, the `%.8f` strings of the position and the projection labels of
@@ -233,7 +253,7 @@ def orphanOp : OpDecl :=
   { deleted := false,
     corners := (List.range 8).map (fun i => ⟨⟨i, 0, 0⟩, [false, false, false], ["0", "0", "0"], []⟩),
     patches := [none, none, none, none, none, none], sideProj := [none, some "sphere_old", none, none],
-    bottomProj := none, topProj := none, zone := "", counts := [], gkind := "simpleGrading", grading := [],
+    bottomProj := none, topProj := none, zone := "", counts := [], simple := true, wireGrading := [],
     edges := [] }
 
 def orphanDecl : Decl :=
